@@ -3,6 +3,10 @@
 //
 // Header `rrtstarrun`; one op:
 //   run <obj len|work> <env> <dim> <seed> <lseed> <budget> <solves> <f:goalthr> <thr def|inf|<f>>
+//       [scripted <f:range> <f:goalbias> <f>*dim (start) <f>*dim (goal) <k> <f>*k (k/dim samples)]
+//     scripted mode: the state sampler plays back the given samples (then falls back to the default
+//     sampler), setRange/setGoalBias are applied, start and goal are the given states -- used for directed
+//     inputs with EXACTLY cost-equal candidates (collinear dyadic points)
 // The run is recorded and printed as a script for the model driver (`drv_rrtstar`), every script line
 // prefixed by `S `, every line the real planner produced for it prefixed by `R `:
 //   S rrtstar dim= obj= maxdist= krrt= gbias= gthr= thr= goal=        (header; after setup())
@@ -182,6 +186,29 @@ struct RecSampler : ob::StateSampler
     void sampleGaussian(ob::State *s, const ob::State *m, double d) override { inner->sampleGaussian(s, m, d); }
 };
 
+// plays back a scripted list of samples, then behaves like the default sampler (wrapped by RecSampler, so
+// whatever it returns is recorded as usual)
+static std::vector<double> gScripted;
+static size_t gScriptedPos = 0;
+struct ScriptSampler : ob::StateSampler
+{
+    ob::StateSamplerPtr inner;
+    ScriptSampler(const ob::StateSpace *sp, ob::StateSamplerPtr in) : ob::StateSampler(sp), inner(std::move(in)) {}
+    void sampleUniform(ob::State *s) override
+    {
+        if (gScriptedPos + gDim <= gScripted.size())
+        {
+            for (unsigned i = 0; i < gDim; ++i)
+                s->as<RV>()->values[i] = gScripted[gScriptedPos + i];
+            gScriptedPos += gDim;
+        }
+        else
+            inner->sampleUniform(s);
+    }
+    void sampleUniformNear(ob::State *s, const ob::State *n, double d) override { inner->sampleUniformNear(s, n, d); }
+    void sampleGaussian(ob::State *s, const ob::State *m, double d) override { inner->sampleGaussian(s, m, d); }
+};
+
 struct FieldWork : ob::MechanicalWorkOptimizationObjective
 {
     FieldWork(const ob::SpaceInformationPtr &si) : ob::MechanicalWorkOptimizationObjective(si, 0.5) {}
@@ -284,8 +311,44 @@ struct RRTstarX : og::RRTstar
 
 static bool doRun(const std::vector<std::string> &t)
 {
-    if (t.size() != 10)
+    if (t.size() < 10)
         return false;
+    bool scripted = false;
+    double sRange = 0, sBias = 0;
+    std::vector<double> sStart, sGoal;
+    gScripted.clear();
+    gScriptedPos = 0;
+    if (t.size() > 10)
+    {
+        auto d0 = vp::parseNat(t[3]);
+        if (t[10] != "scripted" || !d0 || t.size() < 13 + 2 * *d0 + 1)
+            return false;
+        auto r = vp::parseBits(t[11]);
+        auto gb = vp::parseBits(t[12]);
+        if (!r || !gb)
+            return false;
+        sRange = *r;
+        sBias = *gb;
+        size_t pos = 13;
+        for (size_t i = 0; i < 2 * *d0; ++i)
+        {
+            auto v = vp::parseBits(t[pos++]);
+            if (!v)
+                return false;
+            (i < *d0 ? sStart : sGoal).push_back(*v);
+        }
+        auto xs = vp::takeCounted(t, pos);
+        if (!xs || pos != t.size() || xs->size() % *d0 != 0)
+            return false;
+        for (auto &x : *xs)
+        {
+            auto v = vp::parseBits(x);
+            if (!v)
+                return false;
+            gScripted.push_back(*v);
+        }
+        scripted = true;
+    }
     const std::string &kind = t[1];
     auto env = vp::parseNat(t[2]);
     auto dim = vp::parseNat(t[3]);
@@ -314,7 +377,7 @@ static bool doRun(const std::vector<std::string> &t)
     b.setHigh(1.0);
     space->setBounds(b);
     space->setStateSamplerAllocator([](const ob::StateSpace *sp) -> ob::StateSamplerPtr {
-        return std::make_shared<RecSampler>(sp, sp->allocDefaultStateSampler());
+        return std::make_shared<RecSampler>(sp, std::make_shared<ScriptSampler>(sp, sp->allocDefaultStateSampler()));
     });
     auto si = std::make_shared<ob::SpaceInformation>(space);
     si->setStateValidityChecker(std::make_shared<Checker>(si, envBoxes((unsigned)*env, gDim)));
@@ -334,19 +397,25 @@ static bool doRun(const std::vector<std::string> &t)
     ob::ScopedState<> start(si), goal(si);
     for (unsigned i = 0; i < gDim; ++i)
     {
-        start[i] = 0.1;
-        goal[i] = 0.9;
+        start[i] = scripted ? sStart[i] : 0.1;
+        goal[i] = scripted ? sGoal[i] : 0.9;
     }
     pdef->setStartAndGoalStates(start, goal, *gthr);
     pdef->setOptimizationObjective(obj);
     auto planner = std::make_shared<RRTstarX>(si, (std::uint_fast32_t)*lseed);
     planner->setNearestNeighbors<ompl::NearestNeighborsLinear>();
+    if (scripted)
+    {
+        planner->setRange(sRange);
+        planner->setGoalBias(sBias);
+    }
     planner->setProblemDefinition(pdef);
     planner->setup();
     ompl::RNG twin((std::uint_fast32_t)*lseed);
     // setup() of a space of dimension > 2 samples states to infer the default projection's cell sizes:
     // only what the planner draws from here on is part of the script
     gLog = Log();
+    gScriptedPos = 0;
 
     std::cout << "S rrtstar dim=" << gDim << " obj=" << kind << " maxdist=" << vp::bits(planner->maxDist()) << " krrt=" << vp::bits(planner->krrt())
               << " gbias=" << vp::bits(planner->gbias()) << " gthr=" << vp::bits(*gthr) << " thr=" << vp::bits(obj->getCostThreshold().value())
